@@ -39,7 +39,7 @@ def cases(tier, seed, shard, nshards):
                 yield {"k": "str", "v": "".join(t)}
             idx += 1
     ints = [0, 7, 12, 2024, 10 ** 12, -1, -2020]
-    digs = ["0", "7", "007", "2024", "12", "1" * 30, "١٢", "²", "1 2", "12a", "-3", "+3", "3.5", ""]
+    digs = ["0", "7", "007", "2024", "12", "1" * 30, "١٢", "²", "1 2", "12a", "-3", "+3", "3.5", "", "2019\n", "2019 ", "\n2019", "2019\r\n", "20\n19", "2019\t", " 7", "7\n\n", "1_000"]
     for v in ints:
         if idx % nshards == shard:
             yield {"k": "int", "v": v}
@@ -178,8 +178,9 @@ def check(case, ctx):
                     break
             if out:
                 break
-        # integer rule for digit strings (fresh value, no metadata)
-        if isinstance(v, str) and v.isascii() and v.isdigit():
+        # integer rule (fresh value, no metadata): digit strings stay bare iff configured; digit look-alikes
+        # (whitespace inside/around, signs, separators) are not integer values and must be enclosed
+        if isinstance(v, str) and (case["k"] == "digits" or (v.isascii() and v.isdigit())):
             out += int_rule(v, ctx)
     elif case["k"] == "int":
         nontriv = True
@@ -302,9 +303,12 @@ def int_rule(v, ctx):
             vals = {f.key: f.value for f in r.entries[0].fields}
             enc = (d + str(v) + ("}" if d == "{" else '"'))
             is_nonneg = str(v).isdigit()
+            ambiguous = isinstance(v, str) and v.isdigit() and not v.isascii()    # e.g. superscript two: either outcome accepted
             for key in ("year", "volume", "title"):
                 numeric = key != "title"
-                if numeric and not ei and is_nonneg:
+                if numeric and not ei and ambiguous:
+                    ok = vals[key] in (v, enc)
+                elif numeric and not ei and is_nonneg:
                     ok = vals[key] == v or vals[key] == str(v)
                 else:
                     ok = vals[key] == enc
